@@ -113,10 +113,21 @@ fn exchange(t: &mut Trace, rng: &mut Rng, facts: bool) -> usize {
     let mut outs: [Vec<u8>; 2] = [vec![], vec![]]; // everything A / B emitted (handshake bytes)
     let mut done = [false, false];
     let mut sent_t = [false, false];
-    let tlen = [*rng.pick(&[0usize, 1, 2, 17, 64, 1538]), *rng.pick(&[0usize, 1, 5, 64, 300, 2000])];
-    let trailing: [Vec<u8>; 2] = [(0..tlen[0]).map(|i| (i * 7 + 1) as u8).collect(), (0..tlen[1]).map(|i| (i * 3 + 2) as u8).collect()];
+    // one exchange in six has a LOT of application data right behind the handshake (62 000 .. 140 000 bytes: buffered amounts
+    // cross 2^16 and 2^17); constant fill with marked ends keeps the log small
+    let bigt = rng.chance(1, 6);
+    let tlen = if bigt { [*rng.pick(&[62464usize, 63999, 64000, 65535, 65536, 70000, 131072, 140000]), *rng.pick(&[0usize, 5, 62464, 65536, 100000])] }
+               else { [*rng.pick(&[0usize, 1, 2, 17, 64, 1538]), *rng.pick(&[0usize, 1, 5, 64, 300, 2000])] };
+    let mk_tail = |n: usize, a: usize, b: usize, big: bool| -> Vec<u8> {
+        if !big { return (0..n).map(|i| (i * a + b) as u8).collect(); }
+        let mut v = vec![0xAB_u8; n];
+        for i in 0..n.min(9) { v[i] = (i * a + b) as u8; v[n - 1 - i] = (i * 5 + 1) as u8; }
+        if n > 40 { v[n / 2] = 0xCD; }
+        v
+    };
+    let trailing: [Vec<u8>; 2] = [mk_tail(tlen[0], 7, 1, bigt), mk_tail(tlen[1], 3, 2, bigt)];
     let mut app: [Vec<u8>; 2] = [vec![], vec![]];
-    let mode = if facts { *rng.pick(&[0u64, 2, 3]) } else { *rng.pick(&[0u64, 0, 0, 0, 0, 2, 2, 2, 2, 2, 2, 2, 3, 3, 3, 3, 3, 3, 3, 1]) };
+    let mode = if bigt { *rng.pick(&[0u64, 0, 3]) } else if facts { *rng.pick(&[0u64, 2, 3]) } else { *rng.pick(&[0u64, 0, 0, 0, 0, 2, 2, 2, 2, 2, 2, 2, 3, 3, 3, 3, 3, 3, 3, 1]) };
     let mut calls = 0usize;
     // who starts: A generates, or B, or both, or nobody explicitly (then someone must: A)
     let starter = rng.below(3);
